@@ -345,6 +345,16 @@ class Driver(object):
             fn = self.rpc.addProcessGroup if kind == 'addgroup' else self.rpc.removeProcessGroup
             self._call(req, fn, 'g%d' % g)
             self._bind_procs()
+        elif kind == 'remote':
+            # supervisor.sendRemoteCommEvent(type, data) with any XML-RPC value (monitor-judged scripts only); an
+            # exception inside the method stays in the HTTP channel (500), it is not a main-loop failure
+            req = a[1]
+            k.trace.append(('req', req, 'remote', -1, -1))
+            try:
+                self.rpc.sendRemoteCommEvent(a[2], a[3])
+                k.trace.append(('ans', req, 0))
+            except Exception:
+                k.trace.append(('ans', req, 500))
         elif kind == 'rpc':
             req, what = a[1], a[2]
             k.trace.append(('req', req, what, a[3] if len(a) > 3 else -1, a[4] if len(a) > 4 else -1))   # marker
@@ -399,7 +409,7 @@ class Driver(object):
             from supervisor import events
             events.clear()
         return {'snaps': self.snaps, 'trace': self.kernel.trace, 'ended': self.ended,
-                'crash': getattr(self, 'crash_tb', None)}
+                'crash': getattr(self, 'crash_tb', None), 'hangs': list(self.kernel.hangs)}
 
 
 def run_script(script):
